@@ -5,8 +5,9 @@ one of its nested `%include` scopes (a scope sees only its own macro table):
 * `UndeclaredExpressionMacro n`: that scope declares no EXPRESSION macro `n`;
 * `MacroArgumentCount n`: that scope declares a macro `n` (it was applied to the wrong number of arguments);
   in the model only INSTRUCTION macros check their arity (`expandMacro` / `instantiate`): an expression macro applied
-  to too few arguments binds the parameters it has arguments for (`evalArgs` zips) and a use of an unbound parameter
-  is `UndeclaredVariableMacro`, so the macro is in fact an instruction macro (`macroArgumentCount_provenance_instr`);
+  to too few arguments is `UndeclaredVariableMacro` naming the first parameter left without argument (`evalArgs`;
+  `fix:` 841db2a), surplus arguments are ignored, so the macro is in fact an instruction macro
+  (`macroArgumentCount_provenance_instr`);
 * `MacroRecursionLimit n`: that scope declares a macro `n` (its expansion nested 255 deep) — or `n` is the marker
   "fuel" of the evaluator model's own fuel (`evalFuel` = 100000 nested operand levels; DESIGN §11).
 -/
@@ -146,7 +147,7 @@ theorem eval_fault_aux : ∀ f,
       | nil => simp [evalArgs] at h
       | cons p ps =>
         cases args with
-        | nil => simp [evalArgs] at h
+        | nil => simp only [evalArgs, Except.error.injEq] at h; subst h; simp [EvFault]
         | cons a as =>
           simp only [evalArgs] at h
           cases hea : eval f c a with
